@@ -138,6 +138,17 @@ func refConn(calls []callKind) (frames []interface{}, log []string) {
 					log = append(log, "D:ok")
 					emit(map[string]interface{}{"continues": true, "parameters": map[string]interface{}{"c": float64(n)}})
 				}
+			case 'L':
+				if !more {
+					log = append(log, "L:ioerr")
+					ended = true
+				} else {
+					for i := 0; i < 6; i++ {
+						n++
+						log = append(log, "L:ok")
+						emit(map[string]interface{}{"continues": true, "parameters": map[string]interface{}{"c": float64(n)}})
+					}
+				}
 			case 'X':
 				log = append(log, "X")
 				ended = true
